@@ -533,7 +533,9 @@ class ValidateContract(Contract):
         pre = Obj(o.cls, "pre", 0)
         pre.fields = st["before"]
         valid = self.spec(self.T, pre)
-        frame = all(o.fields.get(k) is v for k, v in st["before"].items()) and set(o.fields) == set(st["before"])
+        # (attributes that did not exist before -- private bookkeeping -- are the business of keeps_no_state_between_calls, which asks
+        # for a call history with a wrong answer before it reports a violation; `frame` is about the declared content)
+        frame = all(o.fields.get(k) is v for k, v in st["before"].items())
         if out.kind == "return":
             return {"returns_only_if_valid": valid, "frame": frame}
         return {"raises_only_if_invalid": sym.Not(valid),
@@ -572,6 +574,53 @@ class ValidateContract(Contract):
 
     def describe(self, inputs):
         return "%s(%s)" % (self.key_cls[1], ", ".join("%s=%s" % (k, concretise.py_repr(v)) for k, v in inputs.items()))
+
+    def history_search(self, run):
+        """bounded: validate a VALID object (values from a solver model of the documented rules), then break a rule by changing a
+        container field IN PLACE (no attribute assignment), validate again: the second answer must be the documented one"""
+        import copy
+        if any(callable(v) for v in self.consts.values()):
+            return None
+        o = Obj(self.key_cls, "h", 0)
+        sv = {}
+        for k, v in self.consts.items():
+            o.fields[k] = v
+        for f in self.fields:
+            v = SV(z3.Const("h.%s" % f, sym.Val))
+            o.fields[f] = v
+            sv[f] = v
+        try:
+            r = solve.check_decomposed([B(concretise.wellformed(v)) for v in sv.values()] + [B(self.spec(self.T, o))], 3000)
+            if r.status != "sat":
+                return None
+            vals = dict((f, concretise.value_of(r.model, v)) for f, v in sv.items())
+            real = self._real(copy.deepcopy(vals))
+            getattr(real, self.method)()
+        except Exception:
+            return None
+        for f in self.fields:
+            x = getattr(real, f, None)
+            if not isinstance(x, (dict, list, set)) or not x:
+                continue
+            saved = copy.deepcopy(x)
+            x.clear()
+            now = dict((g, copy.deepcopy(getattr(real, g))) for g in self.fields)
+            valid = bool(self.spec(self.T, self._real(copy.deepcopy(now))))
+            nat = native_call(getattr(real, self.method))
+            (x.update if isinstance(x, (dict, set)) else x.extend)(saved)
+            if (nat[0] == "return") != valid:
+                clause = "returns_only_if_valid" if nat[0] == "return" else "raises_only_if_invalid"
+                script = ("import contracts, copy\nfrom pyvc.source import Source\nsrc = Source(os.environ.get('VERIF_REPO', '/repo')); src.import_native()\n"
+                          "c = contracts.get(%r, src)\nvals = %s\nreal = c._real(copy.deepcopy(vals))\ngetattr(real, c.method)()\n"
+                          "getattr(real, %r).clear()\nnow = dict((g, copy.deepcopy(getattr(real, g))) for g in c.fields)\n"
+                          "valid = bool(c.spec(c.T, c._real(copy.deepcopy(now))))\n"
+                          "try:\n getattr(real, c.method)(); ok = True\nexcept (TypeError, ValueError):\n ok = False\n"
+                          "print('documented verdict:', valid, ' second validate() accepted:', ok)\n"
+                          "if ok != valid: REPRODUCED('validate() after an in-place change of %s answers as for the earlier content')\nNOT_REPRODUCED()\n"
+                          % (self.key, concretise.py_repr(vals), f, f))
+                return (clause, "%s validated, then its %s emptied in place and validated again -> %s, documented verdict: %s"
+                        % (self.describe(vals), f, _nat(nat), "valid" if valid else "invalid"), script)
+        return None
 
 
 def _same(a, b):
